@@ -334,6 +334,52 @@ def result_outcomes(body, du, path):
     return out, True
 
 
+def value_on_path(body, path, local=0):
+    """What the value held by `local` at the end of `path` was made from, following whole-value copies/moves BACKWARDS
+    ALONG THE PATH (in a unit with a helper spliced in, the function's result is a copy of the helper's return slot, which
+    is a copy of ...).  Returns ("const", v) | ("agg", adt, variant) | ("call", callee, block) | ("value",) for anything
+    else | None when the path never writes it.  Only the last write on the path counts at every step."""
+    path = list(path)
+    pos = len(path)                 # look at blocks path[:pos]; within the block at pos-1 look at statements before `upto`
+    upto = None
+    l = local
+    for _ in range(32):
+        found = None
+        for i in range(pos - 1, -1, -1):
+            blk = body.blocks[path[i]]
+            t = blk["term"]
+            stmts = blk["stmts"] if (i != pos - 1 or upto is None) else blk["stmts"][:upto]
+            # the terminator of a block writes after its statements; a call's destination is written on the edge to the
+            # next block of the path, so it counts for every block but the last one looked at when `upto` cuts into it
+            if (i != pos - 1 or upto is None) and t["k"] == "call" and not t["dest"]["proj"] and t["dest"]["l"] == l and i + 1 < len(path) + 1:
+                found = ("call", i, None, t)
+                break
+            hit = None
+            for j in range(len(stmts) - 1, -1, -1):
+                s_ = stmts[j]
+                if s_["k"] == "assign" and s_["lhs"]["l"] == l and not s_["lhs"]["proj"]:
+                    hit = (j, s_)
+                    break
+            if hit is not None:
+                found = ("assign", i, hit[0], hit[1])
+                break
+        if found is None:
+            return None
+        if found[0] == "call":
+            return ("call", norm(found[3].get("callee") or ""), path[found[1]])
+        rv = found[3]["rhs"]
+        if rv["k"] == "use" and rv["a"]["k"] == "const":
+            return ("const", rv["a"].get("v"))
+        if rv["k"] == "agg" and rv.get("adt"):
+            return ("agg", norm(rv["adt"]), rv["variant"])
+        if rv["k"] == "use" and rv["a"]["k"] in ("copy", "move") and not rv["a"]["p"]["proj"]:
+            l = rv["a"]["p"]["l"]
+            pos, upto = found[1] + 1, found[2]
+            continue
+        return ("value",)
+    return ("value",)
+
+
 def enum_facts(conds, variants, mentions=None):
     """Which variants of one enum a path's conditions leave possible, however the test was spelled: a `match` / `if let` /
     `matches!` (a discriminant switch: a 'variant' condition), or `X == E::V` / `X != E::V` (a PartialEq call on an
